@@ -108,3 +108,32 @@ def int_replacer(model, info, art):
     except Exception as e:
         return "confirmed", f"template {template!r}, index {n}: {type(e).__name__}: {e} (printf gives {want!r})"
     return ("contradicted" if got == want else "confirmed"), f"template {template!r}, index {n}: consolidator {got!r}, printf {want!r}"
+
+
+def multipart_consume(model, info, art):
+    """a real TIFFConsolidator: the files registered for a datum are those of its own indices, whatever was registered before"""
+    from bluesky.consolidators import TIFFConsolidator
+    d0, c0 = (int(x) for x in info["shape"].split("/"))
+    jm, k, n0 = info["join_method"], info["frames"], info["earlier"]
+    f = d0 // c0 if jm == "concat" else 1
+    a = max(get(model, "idx_start", "int", 1), 0)
+    sres = {"mimetype": "multipart/related;type=image/tiff", "data_key": "img", "uri": "file://localhost/tmp/",
+            "parameters": {"template": "img_%05d.tif", "chunk_shape": (c0,), "join_method": jm}, "uid": "sr", "run_start": "rs"}
+    desc = {"data_keys": {"img": {"shape": [d0, 4, 4], "dtype": "array", "dtype_numpy": "<u2", "source": "x", "external": "STREAM:"}}}
+    out = []
+    for first in sorted({a, a + 3, 0}):
+        c = TIFFConsolidator(sres, desc)
+        if n0:
+            # something was registered earlier (a datum delivered out of order)
+            c.consume_stream_datum({"indices": {"start": 100, "stop": 102}, "seq_nums": {"start": 101, "stop": 103}, "descriptor": "d",
+                                    "stream_resource": "sr", "uid": "sd0"})
+        before = list(c.data_uris)
+        c.consume_stream_datum({"indices": {"start": first, "stop": first + k}, "seq_nums": {"start": first + 1, "stop": first + k + 1},
+                                "descriptor": "d", "stream_resource": "sr", "uid": "sd1"})
+        want = before + ["file://localhost/tmp/" + "img_%05d.tif" % i for i in range(first * f, (first + k) * f)]
+        nums = [getattr(x, "num", None) for x in c.assets]
+        if list(c.data_uris) != want or nums != list(range(1, len(want) + 1)):
+            return "confirmed", (f"{jm}, {f} file(s) per frame, datum indices [{first}, {first + k}) after {len(before)} registered files: "
+                                 f"data_uris {list(c.data_uris)[len(before):]} (documented {want[len(before):]}), asset nums {nums}")
+        out.append(first)
+    return "contradicted", f"first indices {out}: registered names are those of the datum's own indices"
